@@ -221,4 +221,124 @@ theorem runOps_forcesInv (d : Decls) (fuel tid : Nat) (ops : List Op) (s : St)
   · exact emit_forcesInv _ _ (by simp) (fun e he => h1 e he)
   · exact emit_forcesInv _ _ (by simp) (fun e he => h1 e he)
 
+/-! ## Lazies: the logged thunk starts are exactly `runs` -/
+
+theorem force_runs_prefix (d : Decls) (fuel tid k : Nat) (s : LS) :
+    ∃ l, (force d fuel tid k s).1.runs = l ++ s.runs := by
+  induction fuel generalizing k s with
+  | zero => exact ⟨[], by simp [force]⟩
+  | succ fuel ih =>
+    unfold force
+    split
+    · split
+      · exact ⟨[k], by simp⟩
+      · exact ⟨[k], by simp⟩
+      · rename_i j n hd
+        obtain ⟨l, hl⟩ := ih j { st := upd s.st k (.blackhole tid false), runs := k :: s.runs }
+        rw [finishAdd_runs, hl]
+        exact ⟨l ++ [k], by simp⟩
+    · split
+      · exact ⟨[], by simp⟩
+      · exact ⟨[], by simp⟩
+    · exact ⟨[], by simp⟩
+    · exact ⟨[], by simp⟩
+
+theorem pstep_runs_prefix (d : Decls) (tid : Nat) (p : POp) (s : PState) :
+    ∃ l, (pstep d tid p s).1.lz.runs = l ++ s.lz.runs := by
+  cases p with
+  | send c v => exact ⟨[], by simp [pstep]⟩
+  | recv c => cases hq : s.chans c <;> exact ⟨[], by simp [pstep, hq]⟩
+  | load r => exact ⟨[], by simp [pstep]⟩
+  | store r v => exact ⟨[], by simp [pstep]⟩
+  | force k =>
+    obtain ⟨l, hl⟩ := force_runs_prefix d forceFuel tid k s.lz
+    exact ⟨l, by simpa [pstep] using hl⟩
+
+theorem newRuns_prefix (l b : List Nat) : newRuns b (l ++ b) = l := by
+  simp [newRuns]
+
+def isRun (k : Nat) (e : Ev) : Bool := decide (e.kind = 10 ∧ e.a = (k : Int))
+
+theorem countP_runEvents (k : Nat) (l b : List Nat) :
+    (runEvents b (l ++ b)).countP (isRun k) = l.count k := by
+  rw [runEvents, newRuns_prefix]
+  induction l with
+  | nil => simp
+  | cons j l ih =>
+    simp only [List.map_cons, List.countP_cons, ih, List.count_cons]
+    by_cases e : j = k
+    · subst e; simp [isRun]
+    · have ei : ¬ ((j : Int) = (k : Int)) := by omega
+      simp [isRun, e, ei]
+
+/-- The log's thunk-start events of lazy `k` are as many as `k` occurs in `runs`, and `runs` obeys `RunsInv`. -/
+def RunsLogInv (s : St) : Prop :=
+  RunsInv s.p.lz ∧ ∀ k, s.log.countP (isRun k) = s.p.lz.runs.count k
+
+theorem countP_isRun_zero (k : Nat) (l : List Ev) (h : ∀ e ∈ l, e.kind ≠ 10) : l.countP (isRun k) = 0 := by
+  rw [List.countP_eq_zero]
+  intro e he
+  simp [isRun, h e he]
+
+theorem primEvents_not10 (tid : Nat) (c : Bool) (p : POp) (r : PRes) : ∀ e ∈ primEvents tid c p r, e.kind ≠ 10 := by
+  intro e he
+  cases p with
+  | send c' v => simp [primEvents] at he; subst he; simp
+  | recv c' => cases r <;> simp [primEvents] at he <;> subst he <;> simp
+  | load x => cases r <;> simp [primEvents] at he <;> subst he <;> simp
+  | store x v => simp [primEvents] at he; subst he; simp
+  | force k =>
+    cases r with
+    | forced fr =>
+      cases fr with
+      | ok v => simp [primEvents] at he; subst he; simp
+      | err e' => cases c <;> simp [primEvents] at he; subst he; simp
+      | pending => simp [primEvents] at he
+      | nofuel => simp [primEvents] at he
+    | sent => simp [primEvents] at he
+    | got v => simp [primEvents] at he
+    | empty => simp [primEvents] at he
+    | loaded v => simp [primEvents] at he
+    | stored => simp [primEvents] at he
+
+theorem pstep_runsInv (d : Decls) (tid : Nat) (p : POp) (s : PState) (h : RunsInv s.lz) :
+    RunsInv (pstep d tid p s).1.lz := by
+  cases p with
+  | send c v => simpa [pstep] using h
+  | recv c => cases hq : s.chans c <;> simpa [pstep, hq] using h
+  | load r => simpa [pstep] using h
+  | store r v => simpa [pstep] using h
+  | force k => simpa [pstep] using force_runsInv d forceFuel tid k s.lz h
+
+theorem doPrim_runsLogInv (d : Decls) (tid : Nat) (c : Bool) (p : POp) (s : St) (h : RunsLogInv s) :
+    RunsLogInv (doPrim d tid c p s).1 := by
+  refine ⟨by simpa [doPrim] using pstep_runsInv d tid p s.p h.1, ?_⟩
+  intro k
+  obtain ⟨l, hl⟩ := pstep_runs_prefix d tid p s.p
+  have hp : (primEvents tid c p (pstep d tid p s.p).2).countP (isRun k) = 0 :=
+    countP_isRun_zero k _ (primEvents_not10 tid c p _)
+  have hb : (beginEvents tid p).countP (isRun k) = 0 :=
+    countP_isRun_zero k _ (fun e he => by rw [beginEvents_kind _ _ e he]; decide)
+  have hr : (runEvents s.p.lz.runs (pstep d tid p s.p).1.lz.runs).countP (isRun k) = l.count k := by
+    rw [hl, countP_runEvents]
+  simp only [doPrim, List.countP_append]
+  rw [hp, hb, hr, h.2 k, hl, List.count_append]
+  omega
+
+theorem emit_runsLogInv (s : St) (e : Ev) (hk : 10 < e.kind) (h : RunsLogInv s) : RunsLogInv (s.emit e) := by
+  refine ⟨by simpa [St.emit] using h.1, ?_⟩
+  intro k
+  have : isRun k e = false := by simp [isRun]; intro h10; omega
+  simpa [St.emit, List.countP_cons, this] using h.2 k
+
+theorem runOps_runsLogInv (d : Decls) (fuel tid : Nat) (ops : List Op) (s : St)
+    (h : RunsLogInv s) : RunsLogInv (runOps d fuel tid ops s).1 := by
+  refine runOps_preserves d RunsLogInv (doPrim_runsLogInv d) emit_runsLogInv ?_ fuel tid ops s h
+  intro tid t s0 ops s1 o s2 _ _ h1 heq
+  cases o <;> simp [afterChild] at heq <;> subst heq
+  · exact emit_runsLogInv _ _ (by simp) ⟨h1.1, h1.2⟩
+  · exact emit_runsLogInv _ _ (by simp) ⟨h1.1, h1.2⟩
+  · exact emit_runsLogInv _ _ (by simp) ⟨h1.1, h1.2⟩
+  · exact emit_runsLogInv _ _ (by simp) ⟨h1.1, h1.2⟩
+
 end GluonModel.Chan
